@@ -327,6 +327,11 @@ func init() {
 			return []Term{{S: "(" + fn + " " + r.S + " " + a.S + ")", Sort: SBool, GoT: f.typeOf(call)}}
 		})
 	}
+	reg("(time.Time).Format", "", func(f *FuncCtx, st *State, call *ast.CallExpr, _ ast.Expr, r *Term) []Term {
+		use(f, "time.Time.Format is the uninterpreted time_format(t, layout)")
+		a := arg(f, st, call, 0)
+		return []Term{{S: "(time_format " + r.S + " " + a.S + ")", Sort: SStr, GoT: f.typeOf(call)}}
+	})
 	tm("After", "time_after")
 	tm("Before", "time_before")
 	tm("Equal", "time_equal")
@@ -408,7 +413,19 @@ func fmtVerb(f *FuncCtx, verb string, v Term) string {
 	if (verb == "s" || verb == "v") && v.Sort == SStr {
 		return v.S
 	}
-	name := "fmt_" + strings.NewReplacer(".", "p", "+", "P", "-", "M", "#", "H", " ", "S").Replace(verb) + "_" + mangle(v.Sort)
+	tn := mangle(v.Sort)
+	if v.GoT != nil {
+		if b, ok := types.Unalias(v.GoT).Underlying().(*types.Basic); ok {
+			if bits, signed, isInt := intInfo(b); isInt {
+				_ = bits
+				tn = "int"
+				if !signed {
+					tn = "uint"
+				}
+			}
+		}
+	}
+	name := "fmt_" + strings.NewReplacer(".", "p", "+", "P", "-", "M", "#", "H", " ", "S").Replace(verb) + "_" + tn
 	f.declareFun(name, []string{v.Sort}, SStr)
 	return "(" + name + " " + v.S + ")"
 }
